@@ -1,6 +1,7 @@
 ---------------------------- MODULE Trace_Format ----------------------------
 (* C08: `knut format` / syntax.FormatFile.                                       *)
-(* case = [id, parseable, before, after : [dirs : Seq(Seq(field)), gaps : Seq(id)], *)
+(* case = [id, parseable, before, after : [dirs : Seq(Seq(field)), gaps : Seq(id), *)
+(*   lines : Seq("D" | "L" \o line)],                                             *)
 (*   afterParses, idempotent, cliEqualsLib, cliExit, cliUnchanged]               *)
 (* A field is "Type=value" for every leaf of a directive (dates, accounts,        *)
 (* amounts as canonical decimals, commodities, description, interval) plus       *)
@@ -17,6 +18,7 @@ Why(c) ==
   ELSE IF Len(c.before.dirs) # Len(c.after.dirs) THEN "number-of-directives-changed"
   ELSE IF \E n \in 1..Len(c.before.dirs) : c.before.dirs[n] # c.after.dirs[n] THEN "directive-fields-changed"
   ELSE IF c.before.gaps # c.after.gaps THEN "text-between-directives-changed"
+  ELSE IF c.before.lines # c.after.lines THEN "lines-between-directives-added-or-dropped" \* (directives interleaved with the complete lines outside them)
   ELSE IF c.inkBefore # c.inkAfter THEN "non-blank-text-added-or-dropped"        \* (census of the non-blank characters)
   ELSE IF ~c.idempotent THEN "formatting-twice-changes-the-text"
   ELSE IF c.cliExit # 0 THEN "cli-failed-on-parseable-file"
